@@ -90,6 +90,44 @@ func genC03(g *Gen) {
 		}
 	}
 
+	// (0) hidden state (memo tables / scratch keyed on part of the arguments): generated first thing in
+	//     the run. (a) ONE node under a run of sibling masks of the same height (same top levels and the
+	//     node's own level stored, the other levels flipped), (b) ONE mask with a run of sibling nodes
+	//     (same leading bits, the trailing bits flipped), (c) one node under unrelated masks of its height.
+	nh := g.N(120, 2500)
+	for k := 0; k < nh; k++ {
+		h := g.R.Range(2, 30)
+		if k%3 != 0 {
+			h = g.R.Range(20, 30)
+		}
+		top := uint32(1) << uint(h)
+		low := top - 1
+		l := g.R.Range(1, h)
+		ones := uint64(1)<<uint(l) - 1
+		v := g.R.U64() & ones
+		if g.R.Intn(4) == 0 {
+			v = ones
+		}
+		base := top | uint32(g.R.U64())&low | 1<<uint(l)
+		for j := 0; j < 6; j++ { // (a)
+			flip := uint32(g.R.U64()) & low & 0xfffff &^ (1 << uint(l))
+			if j%2 == 1 {
+				flip = uint32(1) << uint(g.R.Intn(h)) &^ (1 << uint(l))
+			}
+			emit(int32(base^flip), v, l, "held-masks-"+c03HB(h))
+		}
+		for j := 0; j < 6; j++ { // (b)
+			w := v ^ (g.R.U64() & ones & 0xfffff)
+			if j%2 == 1 {
+				w = v ^ (uint64(1)<<uint(g.R.Intn(l)))&ones
+			}
+			emit(int32(base), w, l, "held-nodes-"+c03HB(h))
+		}
+		for j := 0; j < 3; j++ { // (c)
+			emit(int32(top|uint32(g.R.U64())&low|1<<uint(l)), v, l, "held-any-"+c03HB(h))
+		}
+	}
+
 	// (1) exhaustive: every level mask T in [1, 2^7) x every node of its tree
 	for T := int32(1); T < 1<<7; T++ {
 		h := int(c03Height(T))
@@ -174,4 +212,11 @@ func genC03(g *Gen) {
 			emit(int32(T), v, l, "rand-"+mk+"-"+c03HB(h))
 		}
 	}
+
+	// (4) widening: raw arguments against the debug build (c03raw.go)
+	c03GenRaw(g)
+	// (5) widening: the child rule (c03child.go)
+	c03GenChild(g)
+	// (6) widening: from a key to its index, PathOf then PathToIndex(Loose) (c03key.go)
+	c03GenKey(g)
 }
